@@ -67,17 +67,29 @@ func c15Params(name string, shape int) []pt.Param {
 		return nil
 	}
 	var ps []pt.Param
+	shadow := shape == 2+len(sig) // last shape: the first parameter has the name of a global of the same type (legal shadowing)
 	for i, t := range sig {
 		n := fmt.Sprintf("p%d", i)
-		if shape >= 2 && (shape-2) == i { // '_' in position shape-2
+		if !shadow && shape >= 2 && (shape-2) == i { // '_' in position shape-2
 			n = "_"
+		}
+		if shadow && i == 0 {
+			n = "cnt"
+			if t.K == pt.Str {
+				n = "lg"
+			}
 		}
 		ps = append(ps, pt.Param{Name: n, T: t})
 	}
 	return ps
 }
 
-func c15Shapes(name string) int { return 2 + len(ref.EventSigs[name]) }
+func c15Shapes(name string) int {
+	if len(ref.EventSigs[name]) == 0 {
+		return 2
+	}
+	return 3 + len(ref.EventSigs[name])
+}
 
 func c15Body(name string, ps []pt.Param, body int) []pt.Stmt {
 	var payload []pt.Expr
@@ -200,6 +212,10 @@ func runC15(w *fw.Worker) {
 			continue
 		}
 		if err := ref.Check(prog); err != nil {
+			if hs[0].shape == c15Shapes(hs[0].name)-1 && len(ref.EventSigs[hs[0].name]) > 0 {
+				w.Count("shadowing-shape-ill-typed-with-this-body", 1) // e.g. the body declares a local with the parameter's name
+				continue
+			}
 			w.Internal("C15 generator produced an ill-typed program: " + err.Error() + "\n" + src)
 			continue
 		}
